@@ -63,7 +63,7 @@ def build_zoo(frozen=False, hooks=True):
         Literal = None
     from spec_classes import Attr, spec_property
     from spec_classes import spec_class as _spec_class
-    from spec_classes.types import KeyedList, KeyedSet
+    from spec_classes.types import Alias, KeyedList, KeyedSet
 
     def spec_class(*a, **kw):
         """the decorator, with frozen=True added to every class of a frozen zoo"""
@@ -99,9 +99,21 @@ def build_zoo(frozen=False, hooks=True):
         n: int = 1
         extra_any: Any = None
 
+        n_alias: int = Alias("n")
+        n_through: int = Alias("n", passthrough=True)
+        dbl: int
+
         @spec_property(cache=True, invalidated_by=["n", "f"])
         def total(self):
             return self.n + self.f
+
+        @spec_property
+        def dbl(self):
+            return self.n * 2
+
+        @dbl.setter
+        def dbl(self, v):
+            self.n = v // 2
 
     class ScalMid(Scal):          # plain subclass, level 1
         n = 7
